@@ -76,6 +76,9 @@ PROPS = {
     },
     "C12": {
         "corr_filters": ["crate::function", "::new", "Hypergeometric::", "DiscreteUniform::", "Geometric::", "i64::", "i32::", "u64::", "u32::", "f64::"],
+        "hand_suites": ["empirical"],
+        "also_search": [("C15", "Empirical")],
+        "also_props": ["C15/Observations"],
         "not_covered": ["termination of convergence-tested floating-point loops (incomplete gamma series/continued fraction, Kolmogorov series, inv_beta_reg) and of rejection samplers: they terminate because of rounding, which the ℝ model does not carry — watchdog only",
                         "integer overflow of + and * is not modelled (unsigned subtraction and division by zero are)"],
         "assumptions": ["harness built with overflow-checks = true; every call under catch_unwind and a watchdog"],
@@ -90,7 +93,7 @@ PROPS = {
     "C20": {
         "corr_filters": ["i64::", "i32::", "u64::", "u32::", "f64::", "crate::function::evaluate", "crate::prec", "crate::generate"],
         "hand_suites": ["generators"],
-        "not_covered": ["machine overflow of the intermediate (x % d) + d (characterised exactly by theorem, exhibited by the search)", "Horner rounding bound (Float-only)", "generator phase accumulation error in floating point"],
+        "not_covered": ["float modulus: rounding of r + d in the sign-mismatch branch (over ℝ the guard s == d is dead; in floats it keeps the result inside [0,d)) is exercised by the search only", "Horner rounding bound (Float-only)", "generator phase accumulation error in floating point"],
         "assumptions": [],
     },
     "C14": {
